@@ -53,20 +53,24 @@ theorem udec_prefix (a b d : Bytes) (h : udec a = some d) : udec (a ++ b) = some
 def toyCodecW : CodecW :=
   { compress := fun p q _ => .ok ⟨0x3E00000000000000, uenc (p ++ q), -1, -1⟩, canCut := false, cut := fun _ _ _ => .error (.codec 1), wrapResource := fun r => .ok r, close := none }
 
-/-- the hypotheses of `rac_roundtrip` are jointly satisfiable: a codec without `Cut`, short codec 0x3E -/
-theorem roundtrip_hyps_satisfiable :
-    ∃ (cw : CodecW) (D : Bytes → Option Bytes), CodecContract cw D ∧
-      (∀ a b d, D a = some d → D (a ++ b) = some d) ∧
-      (∀ a b rs out, cw.compress a b rs = .ok out → out.codec ≠ 0 ∧ out.codec ≠ 2 ^ 63) := by
-  refine ⟨toyCodecW, udec, ⟨?_, ?_⟩, ?_, ?_⟩
+theorem toy_contract : CodecContract toyCodecW udec := by
+  constructor
   · intro p q rs out h
     simp only [toyCodecW, Except.ok.injEq] at h
     rw [← h]
     have := udec_uenc (p ++ q) []
     simpa using this
   · intro c enc m enc' eLen dLen d h; simp [toyCodecW] at h
-  · exact udec_prefix
-  · intro a b rs out h
-    simp only [toyCodecW, Except.ok.injEq] at h
-    rw [← h]; constructor <;> simp
+
+theorem toy_notZeroes : ∀ a b rs out, toyCodecW.compress a b rs = .ok out → out.codec ≠ 0 ∧ out.codec ≠ 2 ^ 63 := by
+  intro a b rs out h
+  simp only [toyCodecW, Except.ok.injEq] at h
+  rw [← h]; constructor <;> simp
+
+/-- the hypotheses of `rac_roundtrip` are jointly satisfiable: a codec without `Cut`, short codec 0x3E -/
+theorem roundtrip_hyps_satisfiable :
+    ∃ (cw : CodecW) (D : Bytes → Option Bytes), CodecContract cw D ∧
+      (∀ a b d, D a = some d → D (a ++ b) = some d) ∧
+      (∀ a b rs out, cw.compress a b rs = .ok out → out.codec ≠ 0 ∧ out.codec ≠ 2 ^ 63) :=
+  ⟨toyCodecW, udec, toy_contract, udec_prefix, toy_notZeroes⟩
 end WuffsVerif.Rac
